@@ -3,6 +3,8 @@
 From Coq Require Import String List Bool ZArith Permutation.
 Import ListNotations.
 Require Import V.Lib.PyStr V.Lib.JTree V.Det.Model V.Det.Proofs V.Det.Congr V.Det.Refs V.Det.Naming V.Det.Session V.Det.Aggregate V.Det.Replicate V.Det.Reparam.
+Require V.Det.StageVars.
+Module SV := V.Det.StageVars.
 Open Scope string_scope.
 Open Scope list_scope.
 
@@ -267,6 +269,32 @@ Theorem C15_replicates_key_order_invariant : forall t t',
 Proof. exact can_replicate_key_order. Qed.
 Print Assumptions C15_replicates_key_order_invariant.
 
+
+(* FlowIRConcrete.instance() (every replicated load, and the instance files): the loop that resolves the stage
+   variables visits the stages in the order in which a SET of component ids yields them (the oracle: any list of
+   stage keys).  Det.StageVars.walk is the loop, with the loop-carried `context`: for any two orders that visit the
+   same stages every stage gets the same resolved variables ... *)
+Theorem C15_stage_variables_visit_order_invariant : forall p o1 o2 sk,
+  Permutation o1 o2 -> lookup sk (SV.walk p o1) = lookup sk (SV.walk p o2).
+Proof. exact SV.walk_order_independent. Qed.
+Print Assumptions C15_stage_variables_visit_order_invariant.
+
+(* ... namely the variables of that stage resolved against 'global variables + the variables of THAT stage' ... *)
+Theorem C15_stage_variables_of_a_visited_stage : forall p order sk,
+  In sk order -> lookup sk (SV.walk p order) = Some (SV.stage_resolved p sk).
+Proof. exact SV.walk_visited. Qed.
+Print Assumptions C15_stage_variables_of_a_visited_stage.
+
+(* ... so the variables of the OTHER stages are never read: two packages with the same platform, the same global
+   variables and the same variables of stage sk resolve the variables of sk alike, whatever the other stages define
+   and in whatever order the two processes visit the stages *)
+Theorem C15_stage_variables_read_own_stage_only : forall p q o1 o2 sk, In sk o1 -> In sk o2 ->
+  SV.is_default p = SV.is_default q -> SV.gdef p = SV.gdef q -> SV.gplat p = SV.gplat q ->
+  lookup sk (SV.stages p) = lookup sk (SV.stages q) ->
+  lookup sk (SV.walk p o1) = lookup sk (SV.walk q o2).
+Proof. exact SV.walk_local. Qed.
+Print Assumptions C15_stage_variables_read_own_stage_only.
+
 (* non-vacuity: three files a, b, c given as [a; b; c; a]; x is defined by all of them, y only by b.
    The hypotheses hold, the loader succeeds, x comes from a (the last one given), y from b; reversing
    every iteration order changes nothing; the memo buffer of a permuted dictionary is the same. *)
@@ -447,3 +475,14 @@ Example C15_nonvacuous_reparametrize :
                        (ex_read, ["a"], "default")) =
     [("0", JDict [("x", JStr "A"); ("z", JInt 1)])].
 Proof. repeat split; vm_compute; reflexivity. Qed.
+
+(* non-vacuity of the stage variable statements: global base = /global; stage 0 has workdir = %(base)s/zero and does
+   not define base, stages 1 and 2 define base; in both orders of the visits stage 0 resolves /global/zero and
+   stage 1 resolves /one/one *)
+Example C15_nonvacuous_stage_variables :
+  lookup "0" (SV.walk SV.ex_pkg ["0"; "1"; "2"]) = Some [("workdir", SV.CM.Ok (JStr "/global/zero"))] /\
+  lookup "0" (SV.walk SV.ex_pkg ["2"; "1"; "0"]) = Some [("workdir", SV.CM.Ok (JStr "/global/zero"))] /\
+  lookup "1" (SV.walk SV.ex_pkg ["2"; "1"; "0"]) =
+    Some [("base", SV.CM.Ok (JStr "/one")); ("workdir", SV.CM.Ok (JStr "/one/one"))] /\
+  Permutation ["0"; "1"; "2"] ["2"; "1"; "0"].
+Proof. repeat split; try (vm_compute; reflexivity). apply (Permutation_rev ["0"; "1"; "2"]). Qed.
